@@ -613,6 +613,38 @@ theorem setNode_spec {db : DB} (h : WF db) {s : Sig} {idx : Nat} (hf : find db s
   · exact rawNode_set _ ho hlt
   · intro j hj; exact rawNode_set_ne _ ho hj
 
+theorem rawNode_lt {db : DB} (h : WF db) {j : Nat} {n : Node} (hr : rawNode db j = .ok n) : j < db.len := by
+  induction db generalizing j with
+  | root l =>
+    simp only [rawNode] at hr
+    cases hn : l.nodes[j]? with
+    | none => simp [hn] at hr
+    | some m =>
+      have := (List.getElem?_eq_some_iff.mp hn).1
+      simp [DB.len, DB.layer, DB.offset]; omega
+  | ext l off p ih =>
+    simp only [rawNode] at hr
+    split at hr
+    · rename_i hlt; simp [DB.len, DB.layer, DB.offset]; omega
+    · cases hn : l.nodes[j - off]? with
+      | none => simp [hn] at hr
+      | some m =>
+        have := (List.getElem?_eq_some_iff.mp hn).1
+        simp [DB.len, DB.layer, DB.offset]; omega
+
+/-- After appending one node, every node is an old one or the appended one. -/
+theorem node_old_or_new {db db' : DB} {n : Node} (hw' : WF db') (hlen : db'.len = db.len + 1)
+    (hraw : ∀ j, j < db.len → rawNode db' j = rawNode db j) (hnew : rawNode db' db.len = .ok n) :
+    ∀ j m, rawNode db' j = .ok m → rawNode db j = .ok m ∨ (j = db.len ∧ m = n) := by
+  intro j m hm
+  have hj := rawNode_lt hw' hm
+  by_cases hlt : j < db.len
+  · left; rw [← hraw j hlt]; exact hm
+  · have : j = db.len := by omega
+    subst this
+    rw [hnew] at hm; cases hm
+    exact Or.inr ⟨rfl, rfl⟩
+
 theorem appendNode_spec {db : DB} (h : WF db) (n : Node) :
     WF (appendNode db n).1 ∧ Same db (appendNode db n).1 ∧ (appendNode db n).2 = db.len ∧
     (appendNode db n).1.len = db.len + 1 ∧ (∀ t, find (appendNode db n).1 t = find db t) ∧
@@ -638,7 +670,8 @@ theorem addHead_spec {db : DB} (h : WF db) (s : Sig) (create : Bool) :
       (create = true → db.offset ≤ idx) ∧
       (∀ t, t ≠ s → find db' t = find db t) ∧
       (∀ j, j < db.len → rawNode db' j = rawNode db j) ∧
-      (∀ t, defs db' t = defs db t)) := by
+      (∀ t, defs db' t = defs db t) ∧
+      (∀ j g, rawNode db' j = .ok (.other tagChoice [g]) → rawNode db j = .ok (.other tagChoice [g]))) := by
   cases hb : db.layer.builtins.lookup s with
   | some b => left; exact ⟨b, rfl, by simp only [addHead, hb]⟩
   | none =>
@@ -673,8 +706,14 @@ theorem addHead_spec {db : DB} (h : WF db) (s : Sig) (create : Bool) :
       have hnew : rawNode (db.setLayer l') db.len = .ok n := by
         apply rawNode_own (by simp [DB.len])
         simp [l', DB.len]
-      refine ⟨_, _, hres, hw, ⟨l', rfl, rfl⟩, by simp [DB.len, l'], hfs, ?_, hft, hraw, ?_⟩
+      have hlen' : (db.setLayer l').len = db.len + 1 := by simp [DB.len, l']; omega
+      refine ⟨_, _, hres, hw, ⟨l', rfl, rfl⟩, by simp [DB.len, l'], hfs, ?_, hft, hraw, ?_, ?_⟩
       · intro _; simp [DB.len]
+      rotate_left
+      · intro j g hm
+        rcases node_old_or_new hw hlen' hraw hnew j _ hm with h1 | ⟨_, h2⟩
+        · exact h1
+        · rcases hn with hn | ⟨ch, hn⟩ <;> rw [hn] at h2 <;> cases h2
       · intro t
         by_cases ht : t = s
         · subst ht
@@ -721,8 +760,14 @@ theorem addHead_spec {db : DB} (h : WF db) (s : Sig) (create : Bool) :
         have hnew : rawNode (db.setLayer l') db.len = .ok (.define s clauses) := by
           apply rawNode_own (by simp [DB.len])
           simp [l', DB.len]
-        refine ⟨_, _, hres, hw, ⟨l', rfl, rfl⟩, by simp [DB.len, l'], hfs', ?_, hft, hraw, ?_⟩
+        have hlen' : (db.setLayer l').len = db.len + 1 := by simp [DB.len, l']; omega
+        refine ⟨_, _, hres, hw, ⟨l', rfl, rfl⟩, by simp [DB.len, l'], hfs', ?_, hft, hraw, ?_, ?_⟩
         · intro _; simp [DB.len]
+        rotate_left
+        · intro j g hm
+          rcases node_old_or_new hw hlen' hraw hnew j _ hm with h1 | ⟨_, h2⟩
+          · exact h1
+          · cases h2
         · intro t
           by_cases ht : t = s
           · subst ht
@@ -737,29 +782,11 @@ theorem addHead_spec {db : DB} (h : WF db) (s : Sig) (create : Bool) :
           have : (create && decide (node < db.offset)) = false := by
             cases create <;> simp_all
           simp [this]
-        refine ⟨db, node, hres, h, Same.refl db, Nat.le_refl _, hfs, ?_, fun _ _ => rfl, fun _ _ => rfl, fun _ => rfl⟩
+        refine ⟨db, node, hres, h, Same.refl db, Nat.le_refl _, hfs, ?_, fun _ _ => rfl, fun _ _ => rfl, fun _ => rfl,
+          fun _ _ hm => hm⟩
         intro hcr
         simp [hcr] at hc
         exact hc
-
-theorem rawNode_lt {db : DB} (h : WF db) {j : Nat} {n : Node} (hr : rawNode db j = .ok n) : j < db.len := by
-  induction db generalizing j with
-  | root l =>
-    simp only [rawNode] at hr
-    cases hn : l.nodes[j]? with
-    | none => simp [hn] at hr
-    | some m =>
-      have := (List.getElem?_eq_some_iff.mp hn).1
-      simp [DB.len, DB.layer, DB.offset]; omega
-  | ext l off p ih =>
-    simp only [rawNode] at hr
-    split at hr
-    · rename_i hlt; simp [DB.len, DB.layer, DB.offset]; omega
-    · cases hn : l.nodes[j - off]? with
-      | none => simp [hn] at hr
-      | some m =>
-        have := (List.getElem?_eq_some_iff.mp hn).1
-        simp [DB.len, DB.layer, DB.offset]; omega
 
 theorem ids_nil (s : Sig) : Log.ids [] s = [] := rfl
 theorem ids_append (a b : Log) (s : Sig) : Log.ids (a ++ b) s = Log.ids a s ++ Log.ids b s := by
@@ -778,12 +805,21 @@ structure Spec (db db' : DB) (log : Log) : Prop where
   stable : ∀ j n, rawNode db j = .ok n → Node.inert n → rawNode db' j = .ok n
   fresh : ∀ e, e ∈ log → db.len ≤ e.2 ∧
     (rawNode db' e.2 = .ok (.fact e.1) ∨ ∃ b, rawNode db' e.2 = .ok (.clause e.1 b))
+  choices : ∀ j g, rawNode db' j = .ok (.other tagChoice [g]) →
+    rawNode db j = .ok (.other tagChoice [g]) ∨ (db.len ≤ j ∧ g < j)
 
 theorem Spec.refl {db : DB} (h : WF db) : Spec db db [] :=
-  ⟨h, Same.refl db, Nat.le_refl _, by simp [ids_nil], fun _ _ hr _ => hr, by simp⟩
+  ⟨h, Same.refl db, Nat.le_refl _, by simp [ids_nil], fun _ _ hr _ => hr, by simp, fun _ _ hm => Or.inl hm⟩
 
 theorem Spec.trans {a b c : DB} {l1 l2 : Log} (h1 : Spec a b l1) (h2 : Spec b c l2) : Spec a c (l1 ++ l2) := by
-  refine ⟨h2.wf, h1.same.trans h2.same, Nat.le_trans h1.len h2.len, ?_, ?_, ?_⟩
+  refine ⟨h2.wf, h1.same.trans h2.same, Nat.le_trans h1.len h2.len, ?_, ?_, ?_, ?_⟩
+  rotate_left 3
+  · intro j g hm
+    rcases h2.choices j g hm with hb | ⟨hl, hg⟩
+    · rcases h1.choices j g hb with ha | ⟨hl, hg⟩
+      · exact Or.inl ha
+      · exact Or.inr ⟨hl, hg⟩
+    · exact Or.inr ⟨Nat.le_trans h1.len hl, hg⟩
   · intro t; rw [h2.defs, h1.defs, ids_append, List.append_assoc]
   · intro j n hr hn; exact h2.stable j n (h1.stable j n hr hn) hn
   · intro e he
@@ -807,9 +843,10 @@ theorem addDefineNode_spec {db : DB} (h : WF db) (s : Sig) (c : Nat) :
     match addDefineNode db s c with
     | .ok db' => WF db' ∧ Same db db' ∧ db.len ≤ db'.len ∧ defs db' s = defs db s ++ [c] ∧
         (∀ t, t ≠ s → defs db' t = defs db t) ∧
-        (∀ j n, rawNode db j = .ok n → Node.inert n → rawNode db' j = .ok n)
+        (∀ j n, rawNode db j = .ok n → Node.inert n → rawNode db' j = .ok n) ∧
+        (∀ j g, rawNode db' j = .ok (.other tagChoice [g]) → rawNode db j = .ok (.other tagChoice [g]))
     | .error e => e = .accessError := by
-  rcases addHead_spec h s true with ⟨b, _, hres⟩ | ⟨_, db1, idx, hres, hw1, hs1, hl1, hf1, ho1, _, hr1, hd1⟩
+  rcases addHead_spec h s true with ⟨b, _, hres⟩ | ⟨_, db1, idx, hres, hw1, hs1, hl1, hf1, ho1, _, hr1, hd1, hc1⟩
   · simp only [addDefineNode, hres, if_true]
   · have ho : db1.offset ≤ idx := by rw [hs1.offset]; exact ho1 rfl
     obtain ⟨m, hm, hk⟩ := head_node hw1 hf1
@@ -823,9 +860,16 @@ theorem addDefineNode_spec {db : DB} (h : WF db) (s : Sig) (c : Nat) :
         (∀ j, j ≠ idx → rawNode db2 j = rawNode db1 j) →
         WF db2 ∧ Same db db2 ∧ db.len ≤ db2.len ∧ defs db2 s = defs db s ++ [c] ∧
         (∀ t, t ≠ s → defs db2 t = defs db t) ∧
-        (∀ j n, rawNode db j = .ok n → Node.inert n → rawNode db2 j = .ok n) := by
+        (∀ j n, rawNode db j = .ok n → Node.inert n → rawNode db2 j = .ok n) ∧
+        (∀ j g, rawNode db2 j = .ok (.other tagChoice [g]) → rawNode db j = .ok (.other tagChoice [g])) := by
       intro ch' old hold hch db2 _ hw2 hs2 hl2 hf2 hraw hne
-      refine ⟨hw2, hs1.trans hs2, by omega, ?_, ?_, ?_⟩
+      refine ⟨hw2, hs1.trans hs2, by omega, ?_, ?_, ?_, ?_⟩
+      rotate_left 3
+      · intro j g hmj
+        apply hc1
+        by_cases e : j = idx
+        · rw [e, hraw] at hmj; cases hmj
+        · rw [← hne j e]; exact hmj
       · rw [defs_of_define hw2 (by rw [hf2]; exact hf1) hraw, hch, ← hold, hd1]
       · intro t ht
         rw [← hd1 t]
@@ -858,18 +902,26 @@ theorem addDefineNode_spec {db : DB} (h : WF db) (s : Sig) (c : Nat) :
       rw [this]
       exact tail (ch ++ [c]) ch (defs_of_define hw1 hf1 hm) rfl db2 hset hw2 hs2 hl2 hf2 hraw hne
 
-theorem appendNode_Spec {db : DB} (h : WF db) (n : Node) : Spec db (appendNode db n).1 [] := by
-  obtain ⟨hw, hs, _, hl, _, hraw, _, hd⟩ := appendNode_spec h n
-  exact ⟨hw, hs, by omega, by simp [hd, ids_nil], fun j m hr _ => by rw [hraw j (rawNode_lt h hr)]; exact hr, by simp⟩
+theorem appendNode_Spec {db : DB} (h : WF db) (n : Node)
+    (hn : ∀ g, n = .other tagChoice [g] → g < db.len := by intro g hg; simp [tagConj, tagDisj, tagNeg, tagChoice, tagChoiceCall] at hg) :
+    Spec db (appendNode db n).1 [] := by
+  obtain ⟨hw, hs, _, hl, _, hraw, hnew, hd⟩ := appendNode_spec h n
+  refine ⟨hw, hs, by omega, by simp [hd, ids_nil], fun j m hr _ => by rw [hraw j (rawNode_lt h hr)]; exact hr, by simp, ?_⟩
+  intro j g hm
+  rcases node_old_or_new hw hl hraw hnew j _ hm with h1 | ⟨h1, h2⟩
+  · exact Or.inl h1
+  · subst h1
+    exact Or.inr ⟨Nat.le_refl _, hn g h2.symm⟩
 
 theorem addHead_Good {db : DB} (h : WF db) (s : Sig) (create : Bool) :
     Good db (addHead db s create) (fun _ => []) := by
-  rcases addHead_spec h s create with ⟨b, _, hres⟩ | ⟨_, db1, idx, hres, hw1, hs1, hl1, _, _, _, hr1, hd1⟩
+  rcases addHead_spec h s create with ⟨b, _, hres⟩ | ⟨_, db1, idx, hres, hw1, hs1, hl1, _, _, _, hr1, hd1, hc1⟩
   · rw [hres]; cases create
     · exact Spec.refl h
     · rfl
   · rw [hres]
-    exact ⟨hw1, hs1, hl1, by simp [hd1, ids_nil], fun j m hr _ => by rw [hr1 j (rawNode_lt h hr)]; exact hr, by simp⟩
+    exact ⟨hw1, hs1, hl1, by simp [hd1, ids_nil], fun j m hr _ => by rw [hr1 j (rawNode_lt h hr)]; exact hr, by simp,
+      fun j g hm => Or.inl (hc1 j g hm)⟩
 
 theorem addDefine_after_append {db : DB} (h : WF db) (s : Sig) (n : Node) (hn : Node.inert n)
     (hk : n = .fact s ∨ ∃ b, n = .clause s b) :
@@ -882,8 +934,13 @@ theorem addDefine_after_append {db : DB} (h : WF db) (s : Sig) (n : Node) (hn : 
   | error e => rw [hres] at hspec; exact hspec
   | ok db2 =>
     rw [hres] at hspec
-    obtain ⟨hw2, hs2, hl2, hds, hdt, hst⟩ := hspec
-    refine ⟨hw2, hs.trans hs2, by omega, ?_, ?_, ?_⟩
+    obtain ⟨hw2, hs2, hl2, hds, hdt, hst, hch⟩ := hspec
+    refine ⟨hw2, hs.trans hs2, by omega, ?_, ?_, ?_, ?_⟩
+    rotate_left 3
+    · intro j g hmj
+      rcases node_old_or_new hw hl hraw hnew j _ (hch j g hmj) with h1 | ⟨_, h2⟩
+      · exact Or.inl h1
+      · rcases hk with hk | ⟨b, hk⟩ <;> rw [hk] at h2 <;> cases h2
     · intro t
       by_cases ht : t = s
       · subst ht; rw [hds, hd, ids_cons_self, ids_nil]
@@ -907,7 +964,8 @@ theorem addClauseNode_Good {db : DB} (h : WF db) (s : Sig) (body : Nat) :
 theorem addFact_Good {db : DB} (h : WF db) (s : Sig) : Good db (addFact db s) (fun c => [(s, c)]) :=
   addDefine_after_append h s (.fact s) trivial (Or.inl rfl)
 
-theorem Good.append {α : Type} {db : DB} {r : Except Err (DB × α)} (hg : Good db r (fun _ => [])) (f : α → Node) :
+theorem Good.append {α : Type} {db : DB} {r : Except Err (DB × α)} (hg : Good db r (fun _ => [])) (f : α → Node)
+    (hf : ∀ x g, f x ≠ .other tagChoice [g]) :
     Good db (match r with
              | .error e => .error e
              | .ok (db1, x) => .ok (appendNode db1 (f x))) (fun (_ : Nat) => []) := by
@@ -916,11 +974,11 @@ theorem Good.append {α : Type} {db : DB} {r : Except Err (DB × α)} (hg : Good
   | ok p =>
     obtain ⟨db1, x⟩ := p
     have h1 : Spec db db1 [] := hg
-    have := h1.trans (appendNode_Spec h1.wf (f x))
+    have := h1.trans (appendNode_Spec h1.wf (f x) (fun g hg => absurd hg (hf x g)))
     exact this
 
 theorem addCallNode_Good {db : DB} (h : WF db) (s : Sig) : Good db (addCallNode db s) (fun _ => []) := by
-  have := (addHead_Good h s false).append (fun ref => Node.call s ref)
+  have := (addHead_Good h s false).append (fun ref => Node.call s ref) (by intro ref g hh; cases hh)
   unfold addCallNode
   cases hr : addHead db s false with
   | error e => rw [hr] at this; exact this
@@ -988,38 +1046,41 @@ theorem Spec.then_addClause {db X : DB} (hX : Spec db X []) (hd : Sig) (y : Nat)
     have g : Spec X db5 [(hd, c)] := g
     exact hX.trans g
 
-theorem addChoice_Good {db : DB} (h : WF db) (bodySig : Sig) (cb : Ref) (hd : Sig) :
-    Good db (addChoice db bodySig cb hd) (fun c => [(hd, c)]) := by
-  have s1 := appendNode_Spec h (.other tagChoice [])
-  have s2 := appendNode_Spec s1.wf (.other tagChoiceCall [(appendNode db (.other tagChoice [])).2])
+theorem addChoice_Good {db : DB} (h : WF db) (group : Nat) (hgr : group < db.len) (bodySig : Sig) (cb : Ref)
+    (hd : Sig) : Good db (addChoice db group bodySig cb hd) (fun c => [(hd, c)]) := by
+  have s1 := appendNode_Spec h (.other tagChoice [group]) (by
+    intro g hg
+    have : g = group := by simp at hg; exact hg.symm
+    omega)
+  have s2 := appendNode_Spec s1.wf (.other tagChoiceCall [(appendNode db (.other tagChoice [group])).2])
   have s12 := s1.trans s2
-  have s3 := appendNode_Spec s12.wf (.call bodySig cb)
+  have s3 := appendNode_Spec s12.wf (.call bodySig cb) (by intro g hg; cases hg)
   have s123 := s12.trans s3
   have s4 := appendNode_Spec s123.wf (.other tagConj
-    [(appendNode (appendNode (appendNode db (.other tagChoice [])).1
-        (.other tagChoiceCall [(appendNode db (.other tagChoice [])).2])).1 (.call bodySig cb)).2,
-     (appendNode (appendNode db (.other tagChoice [])).1
-        (.other tagChoiceCall [(appendNode db (.other tagChoice [])).2])).2])
+    [(appendNode (appendNode (appendNode db (.other tagChoice [group])).1
+        (.other tagChoiceCall [(appendNode db (.other tagChoice [group])).2])).1 (.call bodySig cb)).2,
+     (appendNode (appendNode db (.other tagChoice [group])).1
+        (.other tagChoiceCall [(appendNode db (.other tagChoice [group])).2])).2])
   have s1234 := s123.trans s4
   simp only [List.append_nil] at s1234
   exact s1234.then_addClause hd _
 
-theorem addChoices_Good {db : DB} (h : WF db) (bodySig : Sig) (cb : Ref) (hs : List Sig) :
-    Good db (addChoices db bodySig cb hs) id := by
+theorem addChoices_Good {db : DB} (h : WF db) (group : Nat) (hgr : group < db.len) (bodySig : Sig) (cb : Ref)
+    (hs : List Sig) : Good db (addChoices db group bodySig cb hs) id := by
   induction hs generalizing db with
   | nil => exact Spec.refl h
   | cons hd tl ih =>
     simp only [addChoices]
-    have g := addChoice_Good h bodySig cb hd
-    cases hr : addChoice db bodySig cb hd with
+    have g := addChoice_Good h group hgr bodySig cb hd
+    cases hr : addChoice db group bodySig cb hd with
     | error e => rw [hr] at g; dsimp only; exact g
     | ok p =>
       obtain ⟨db1, c⟩ := p
       dsimp only
       rw [hr] at g
       have g : Spec db db1 [(hd, c)] := g
-      have g2 := ih g.wf
-      cases hr2 : addChoices db1 bodySig cb tl with
+      have g2 := ih g.wf (Nat.lt_of_lt_of_le hgr g.len)
+      cases hr2 : addChoices db1 group bodySig cb tl with
       | error e => rw [hr2] at g2; dsimp only; exact g2
       | ok q =>
         obtain ⟨db2, log⟩ := q
@@ -1082,8 +1143,18 @@ theorem applyOp_Good {db : DB} (h : WF db) (op : Op) : Good db (applyOp db op) i
           dsimp only
           rw [hr3] at g3
           have g3 : Spec db2 db3 [] := g3
-          have g4 := addChoices_Good g3.wf (Sig.body db1.len) cb heads
-          cases hr4 : addChoices db3 (Sig.body db1.len) cb heads with
+          have hgr : adGroup db < db3.len := by
+            have hc := (g2.fresh _ (List.mem_singleton.mpr rfl)).1
+            have hlt : c < db2.len := by
+              rcases (g2.fresh _ (List.mem_singleton.mpr rfl)).2 with hk | ⟨bb, hk⟩
+              · exact rawNode_lt g2.wf hk
+              · exact rawNode_lt g2.wf hk
+            have := g.len
+            have := g3.len
+            simp only [adGroup] at *
+            omega
+          have g4 := addChoices_Good g3.wf (adGroup db) hgr (Sig.body db1.len) cb heads
+          cases hr4 : addChoices db3 (adGroup db) (Sig.body db1.len) cb heads with
           | error e => rw [hr4] at g4; dsimp only; exact g4
           | ok q4 =>
             obtain ⟨db4, log⟩ := q4
